@@ -1288,6 +1288,39 @@ def gen_bonus():
 GENERATORS["Bonus.lean"] = gen_bonus
 
 
+def gen_alloc_guard():
+    """matrix.rs: the two rejection tests of MatrixSlab::alloc (C10: which inputs take the matrix path)"""
+    src = strip_comments(read("matcher/src/matrix.rs"))
+    body = fn_bodies(src).get("alloc", [None])[0]
+    if body is None:
+        raise TranslateError("MatrixSlab::alloc not found")
+    m = re.search(r"let cells = ([^;]+);\s*if (.*?)\{\s*return None;\s*\}\s*let matrix_layout = MatrixLayout::<C>::new\(haystack_\.len\(\), needle_len\);\s*"
+                  r"if matrix_layout\.layout\.size\(\) > size_of::<MatcherData>\(\) \{\s*return None;\s*\}", body, re.S)
+    if not m:
+        raise TranslateError("MatrixSlab::alloc has an unexpected shape")
+    consts = {"MAX_MATRIX_SIZE": "usize", "MAX_NEEDLE_LEN": "usize", "MAX_HAYSTACK_LEN": "usize"}
+    env = {"w": "usize", "needle_len": "usize", "cells": "usize"}
+    cells_e = m.group(1).replace("haystack_.len()", "w")
+    cond = m.group(2).replace("haystack_.len()", "w").replace("u16::MAX as usize", "65535")
+    ce, _ = RustExpr(cells_e, env, {}, consts).expr()
+    px = RustExpr(cond, env, {}, consts)
+    px.subst = {"cells": ce}
+    ge, _ = px.expr(no_struct=True)
+    if not px.done():
+        raise TranslateError("alloc guard: trailing tokens")
+    out = ["/- GENERATED by translator/translate.py from matcher/src/matrix.rs (MatrixSlab::alloc) — do not edit -/",
+           "import NucleoVerif.Gen.Layout", "namespace NucleoVerif.Gen.Alloc", "open NucleoVerif.Gen", "",
+           "/-- the first test of `MatrixSlab::alloc` that makes it return `None` (`w` = `haystack_.len()`, the window) -/",
+           f"def rejects_size (w needle_len : Nat) : Bool := {ge}", "",
+           "/-- the second one is `matrix_layout.layout.size() > size_of::<MatcherData>()` (the layout's size and the slab size are in `Gen/Layout.lean`) -/",
+           "def second_test_is_layout_size_gt_slab : Bool := true", "",
+           "end NucleoVerif.Gen.Alloc"]
+    return "\n".join(out) + "\n"
+
+
+GENERATORS["Alloc.lean"] = gen_alloc_guard
+
+
 def rust_struct_fields(src, name):
     m = re.search(r"struct\s+%s\s*\{(.*?)\}" % name, src, re.S)
     if m:
